@@ -27,7 +27,10 @@ CONSTANTS RPCs,      \* set of RPC numbers 1..N; stream ids are allocated in ord
           SScript,   \* [RPCs -> Seq(op)]: handler script, ops [op |-> "recv"|"send"|"ret", n |-> size, code |-> status code]
           Faults,    \* subset of {"cancel", "close", "shutdown"}: enabled driver faults
           MaxFaults, \* bound on the number of fault actions in a behaviour
-          Stepped    \* TRUE: internal actions are urgent (run to quiescence between driver actions), as the harness executes
+          Stepped,   \* TRUE: internal actions are urgent (run to quiescence between driver actions), as the harness executes
+          Dir        \* "fwd": the tunnel client is the network client; "rev": the tunnel client is the network SERVER
+                     \* (a reverse tunnel): its Close makes the opening RPC's handler return, after which gRPC
+                     \* refuses (io.EOF) and discards whatever the network client - the tunnel server - still sends
 
 VARIABLES c2s, s2c,  \* carrier: frames in flight per direction
           car,       \* carrier status: [closeSend, srvGone]
@@ -391,6 +394,9 @@ CliCloseDo ==
 SrvLiveSid(s) == IF \E x \in RPCs : cs[x].id = s /\ ss[x].st = "live"
                  THEN CHOOSE x \in RPCs : cs[x].id = s /\ ss[x].st = "live" ELSE 0
 
+\* the tunnel server can still put frames on the carrier
+S2CUp == srv.up /\ ~(Dir = "rev" /\ car.closeSend)
+
 \* the serve loop takes the next frame (:71-112, :340-368)   [driver action: frame delivery]
 SrvDeliver ==
   /\ srv.up /\ srv.busy = 0 /\ c2s # <<>>
@@ -440,7 +446,7 @@ HandlerStart(r) ==
 SrvEmitReject(r) ==
   /\ ss[r].rejectOwed = 1
   /\ SetS(r, [ss[r] EXCEPT !.rejectOwed = 2])
-  /\ IF srv.up
+  /\ IF S2CUp
      THEN /\ s2c' = Append(s2c, Frame(cs[r].id, "close", 0, 0, 14, 0, NoMid))
           /\ OWireSend(EvWire("wire.send", "s2c", Frame(cs[r].id, "close", 0, 0, 14, 0, NoMid)))
      ELSE /\ UNCHANGED s2c /\ OSkip
@@ -469,7 +475,7 @@ SrvOpStart(r) ==
 SrvEmitHdr(r) ==
   /\ ss[r].snd = "hdr"
   /\ SetS(r, [ss[r] EXCEPT !.snd = "need", !.sentHdr = TRUE])
-  /\ IF srv.up
+  /\ IF S2CUp
      THEN /\ s2c' = Append(s2c, Frame(cs[r].id, "hdr", 0, 0, 0, 0, NoMid))
           /\ OWireSend(EvWire("wire.send", "s2c", Frame(cs[r].id, "hdr", 0, 0, 0, 0, NoMid)))
      ELSE /\ UNCHANGED s2c /\ OSkip
@@ -487,7 +493,7 @@ SrvEmit(r) ==
   /\ LET c == ss[r]
          f == Frame(cs[r].id, IF c.sfirst THEN "msg" ELSE "more", IF c.sfirst THEN c.ssize ELSE 0, c.sres, 0, 0,
                     <<r, "s", c.nsent - 1>>)
-     IN IF srv.up
+     IN IF S2CUp
         THEN /\ s2c' = Append(s2c, f)
              /\ SetS(r, [c EXCEPT !.sleft = @ - c.sres, !.sres = 0, !.sfirst = FALSE,
                                   !.snd = IF c.sleft - c.sres = 0 THEN "done" ELSE "need"])
@@ -532,7 +538,7 @@ SrvDequeue(r) ==
 \* ... window update unless the stream is (half-)closed (:217-228)
 SrvCredit(r) ==
   /\ ss[r].credit > 0
-  /\ IF ss[r].half # "" \/ ~srv.up
+  /\ IF ss[r].half # "" \/ ~S2CUp
      THEN /\ OSkip /\ UNCHANGED s2c
      ELSE /\ s2c' = Append(s2c, Frame(cs[r].id, "wu", 0, ss[r].credit, 0, 0, NoMid))
           /\ OWireSend(EvWire("wire.send", "s2c", Frame(cs[r].id, "wu", 0, ss[r].credit, 0, 0, NoMid)))
@@ -575,7 +581,8 @@ SrvFinStep(r, who) ==
                                 ELSE ss[r]
                    [] st = 4 -> IF ss[r].closed THEN ss[r]
                                 ELSE [ss[r] EXCEPT !.closed = TRUE, !.closeOwed = IF ss[r].sentHdr THEN 2 ELSE 1,
-                                                   !.sentHdr = TRUE, !.closeCode = code]))
+                                                   \* on the wire a plain context.Canceled error is status Unknown (2)
+                                                   !.sentHdr = TRUE, !.closeCode = IF who = "L" THEN 2 ELSE code]))
   /\ srv' = IF who = "L" /\ st = 4 THEN [srv EXCEPT !.busy = 0] ELSE srv
   /\ OSkip
   /\ UNCHANGED <<c2s, s2c, car, cli, cs, app, nf>>
@@ -594,7 +601,7 @@ SrvEmitClose(r) ==
   /\ LET f == IF ss[r].closeOwed = 1 THEN Frame(cs[r].id, "hdr", 0, 0, 0, 0, NoMid)
               ELSE Frame(cs[r].id, "close", 0, 0, ss[r].closeCode, 0, NoMid)
      IN /\ SetS(r, [ss[r] EXCEPT !.closeOwed = IF @ = 1 THEN 2 ELSE 0])
-        /\ IF srv.up
+        /\ IF S2CUp
            THEN /\ s2c' = Append(s2c, f)
                 /\ OWireSend(EvWire("wire.send", "s2c", f))
            ELSE /\ UNCHANGED s2c /\ OSkip
@@ -660,13 +667,14 @@ HandlerCtx ==
   SetToSeq({ <<r, IF ss[r].ctx = "live" THEN 0 ELSE 1>> : r \in { x \in RPCs : ss[x].h = "running" } })
 
 \* the report the harness produces at a quiescent point
+QRec == [ev |-> "q", final |-> FALSE, blocked |-> Blocked, h |-> HandlerCtx, parked |-> <<>>,
+         ctab |-> Cardinality({ r \in RPCs : cs[r].intable }),
+         stab |-> IF srv.up THEN Cardinality({ r \in RPCs : ss[r].st = "live" }) ELSE 0,
+         nsrv |-> IF srv.up THEN 1 ELSE 0, qc2s |-> Len(c2s), qs2c |-> Len(s2c), g |-> -1,
+         chdone |-> ~cli.up]
 Quiesce ==
   /\ ~InternalEnabled /\ ~q.at
-  /\ OQuiesce([ev |-> "q", final |-> FALSE, blocked |-> Blocked, h |-> HandlerCtx, parked |-> <<>>,
-               ctab |-> Cardinality({ r \in RPCs : cs[r].intable }),
-               stab |-> IF srv.up THEN Cardinality({ r \in RPCs : ss[r].st = "live" }) ELSE 0,
-               nsrv |-> IF srv.up THEN 1 ELSE 0, qc2s |-> Len(c2s), qs2c |-> Len(s2c), g |-> -1,
-               chdone |-> ~cli.up])
+  /\ OQuiesce(QRec)
   /\ UNCHANGED mvars
 
 ---------------------------------------------------------------------------
